@@ -859,10 +859,11 @@ def coq_eval_blocks(pid, header, blocks, tag="cases", per_file=8, timeout=900):
     inside one term make Coq's elaboration quadratic; top-level definitions do not.
     Returns the printed value of each case."""
     import re as _re
-    d = cm.WORK / pid / tag
+    import os as _os
+    import shutil as _sh
+    d = cm.WORK / pid / f"{tag}_{_os.getpid()}"      # private to this process: concurrent runs must not clobber each other
     if d.exists():
-        for f in d.iterdir():
-            f.unlink()
+        _sh.rmtree(d, ignore_errors=True)
     d.mkdir(parents=True, exist_ok=True)
     files = []
     chunks = [blocks[i:i + per_file] for i in range(0, len(blocks), per_file)]
@@ -891,4 +892,5 @@ def coq_eval_blocks(pid, header, blocks, tag="cases", per_file=8, timeout=900):
         for p in parts:
             idx = p.rfind("\n     : ")
             outs.append(p[:idx].strip() if idx >= 0 else p.strip())
+    _sh.rmtree(d, ignore_errors=True)
     return outs
